@@ -116,9 +116,42 @@ func (n *Node) bootPolicyComp(ctx context.Context) {
 			w.Violate("C25", "reload-differs-after:"+op.Kind+":"+fileStyle, "after step %d (%s %s => %s) a fresh load of the policy file gives {%s}, the reference says {%s}; file:\n%s", step, op.Kind, shortArg(op), what, fv, want, string(b))
 		}
 	}
+	// edits made to the file behind the daemon's back (by the operator's editor);
+	// they take effect when the code next reloads the file
+	var pendingEdits []func(*RefPolicy)
+	applyPending := func() {
+		for _, f := range pendingEdits {
+			f(ref)
+		}
+		pendingEdits = nil
+	}
 	for i, op := range ops[1:] {
 		rt.Yield("policy-op")
 		n.checkAlive()
+		if strings.HasPrefix(op.Kind, "edit-") {
+			b, _ := os.ReadFile(n.policyPath)
+			content := string(b)
+			if len(content) > 0 && !strings.HasSuffix(content, "\n") {
+				content += "\n"
+			}
+			switch op.Kind {
+			case "edit-min":
+				content = dropKey(content, "min_swap_amount_msat") + fmt.Sprintf("min_swap_amount_msat=%d\n", op.N)
+				v := uint64(op.N)
+				pendingEdits = append(pendingEdits, func(r *RefPolicy) { r.MinMsat = v })
+			case "edit-acceptall":
+				content = dropKey(content, "accept_all_peers") + fmt.Sprintf("accept_all_peers=%v\n", op.N == 1)
+				v := op.N == 1
+				pendingEdits = append(pendingEdits, func(r *RefPolicy) { r.AcceptAll = v })
+			case "edit-allow":
+				pk := NodePubkey(op.Peer)
+				content += "allowlisted_peers=" + pk + "\n"
+				pendingEdits = append(pendingEdits, func(r *RefPolicy) { r.Allow[pk] = true })
+			}
+			os.WriteFile(n.policyPath, []byte(content), 0o644)
+			w.Probe("C25:op:" + op.Kind)
+			continue
+		}
 		peer := op.S
 		if peer == "" {
 			peer = NodePubkey(op.Peer)
@@ -158,8 +191,29 @@ func (n *Node) bootPolicyComp(ctx context.Context) {
 		if err != nil {
 			what = "error: " + err.Error()
 		}
+		reloaded := false
+		switch op.Kind {
+		case "policy-reload", "restart":
+			reloaded = err == nil
+		case "policy-disable":
+			reloaded = err == nil && ref.Enabled
+		case "policy-enable":
+			reloaded = err == nil && !ref.Enabled
+		default:
+			reloaded = err == nil && expectOK
+		}
+		if len(pendingEdits) > 0 && !reloaded && (op.Kind == "policy-disable" || op.Kind == "policy-enable") {
+			// a no-op enable/disable does not re-read the file; whether it would have been a
+			// no-op depends on the pending edit, so skip judging until the next real reload
+		}
+		if reloaded {
+			applyPending()
+		}
 		if err == nil && expectOK {
 			ref.Apply(op.Kind, peer)
+		}
+		if len(pendingEdits) > 0 {
+			continue // memory legitimately lags behind the edited file until the next reload
 		}
 		if err == nil && !expectOK {
 			w.Violate("C25", "accepted-invalid:"+op.Kind+":"+fileStyle, "step %d: %s %s should have been rejected (invalid key or duplicate/absent entry) but succeeded", i+1, op.Kind, shortArg(op))
@@ -187,3 +241,16 @@ func shortArg(op CompOp) string {
 func (w *World) scheduleComp() {}
 
 func init() { _ = strings.TrimSpace }
+
+// dropKey removes every line setting key from an ini text.
+func dropKey(content, key string) string {
+	var out []string
+	for _, l := range strings.Split(content, "\n") {
+		k, _, found := strings.Cut(l, "=")
+		if found && strings.TrimSpace(k) == key {
+			continue
+		}
+		out = append(out, l)
+	}
+	return strings.Join(out, "\n")
+}
